@@ -218,7 +218,17 @@ def state_tables() -> str:
     reach, unresolved = _reach(a, b)
     scanned = list(a.funcs) + ["fill:" + q for q in b.funcs]
     body = ",\n   ".join(f"{{ func := {_q(f)}, method := {_q(f.split('.')[-1].split(':')[-1])}, scope := {_q(s)}, target := {_q(t)}, how := {_q(h)} }}" for f, s, t, h in rows)
-    return ("/-- translated from `direct/ssl/ssl.py`, `direct/ssl/mask_fillers.py`: every write to an object attribute, a class\n"
+    exits = []
+    for q in reach:
+        fn = (b if q.startswith("fill:") else a).funcs[q[5:] if q.startswith("fill:") else q]
+        if any(isinstance(n, (ast.Yield, ast.YieldFrom)) for n in ast.walk(fn)):
+            continue          # context manager
+        nret = sum(1 for n in ast.walk(fn) if isinstance(n, ast.Return))
+        exits.append((q, nret, isinstance(fn.body[-1], ast.Return)))
+    exit_rows = ", ".join(f"({_q(q)}, {n}, {'true' if last else 'false'})" for q, n, last in exits)
+    return ("/-- every function on `forward`'s path: number of `return` statements, and whether the last statement is one -/\n"
+            f"def forward_exits : List (String × Nat × Bool) := [{exit_rows}]\n"
+            "/-- translated from `direct/ssl/ssl.py`, `direct/ssl/mask_fillers.py`: every write to an object attribute, a class\n"
             "attribute, a module global or a mutable default, and every memoising decorator, with the function it occurs in -/\n"
             f"def state_writes : List SslSplit.StateWrite :=\n  [{body}]\n"
             f"/-- all functions of the two modules that were scanned -/\ndef state_scanned : List String := {_lstr(scanned)}\n"
@@ -228,7 +238,8 @@ def state_tables() -> str:
             f"def forward_unresolved : List String := {_lstr(unresolved)}\n")
 
 
-STATE_FALLBACK = ("def state_writes : List SslSplit.StateWrite := []\n"
+STATE_FALLBACK = ("def forward_exits : List (String × Nat × Bool) := []\n"
+                  "def state_writes : List SslSplit.StateWrite := []\n"
                   "def state_scanned : List String := [\"MaskSplitter.forward\"]\n"
                   "def forward_reach : List String := [\"MaskSplitter.forward\"]\n"
                   "def forward_unresolved : List String := []\n")
